@@ -196,55 +196,10 @@ mod k {
         any_f32_in(-1.0e4, 1.0e4)
     }
 
-    // a ray that hits a box also hits every box that contains it (soundness of parent-box pruning).
-    // The full statement (18 symbolic floats through three reciprocals) does not come back from CBMC in 30 minutes, so
-    // it is proved one axis at a time ON THE REAL FUNCTION: the other two slabs are made unbounded (-inf, +inf), where
-    // the slab test of AABB::intersects reduces to the axis under test. Valid inputs: |coordinates| <= 1e4, direction
-    // component of magnitude in [1e-6, 1] (non-zero: a ray parallel to the slab never leaves or enters it).
-    fn axis_mono(axis: usize) {
-        let (amin, amax, bmin, bmax) = (any_coord(), any_coord(), any_coord(), any_coord());
-        kani::assume(amin <= amax && bmin <= bmax);
-        let o = any_coord();
-        let d = any_f32_in(-1.0, 1.0);
-        kani::assume(d >= 1.0e-6 || d <= -1.0e-6);
-        kani::cover!(true, "precondition satisfiable");
-        let (ninf, pinf) = (f32::NEG_INFINITY, f32::INFINITY);
-        let mk = |lo: f32, hi: f32| match axis {
-            0 => AABB::new(point![lo, ninf, ninf], point![hi, pinf, pinf]),
-            1 => AABB::new(point![ninf, lo, ninf], point![pinf, hi, pinf]),
-            _ => AABB::new(point![ninf, ninf, lo], point![pinf, pinf, hi]),
-        };
-        let a = mk(amin, amax);
-        let b = mk(bmin, bmax);
-        let (origin, dir) = match axis {
-            0 => (point![o, 0.0, 0.0], vector![d, 0.5, 0.5]),
-            1 => (point![0.0, o, 0.0], vector![0.5, d, 0.5]),
-            _ => (point![0.0, 0.0, o], vector![0.5, 0.5, d]),
-        };
-        let ray = Ray { origin, dir };
-        let ha = a.intersects(&ray);
-        if ha.is_some() {
-            let hj = a.join(b).intersects(&ray);
-            assert!(hj.is_some(), "C13.aabb.mono.axis");
-            // the enclosing slab is entered no later
-            assert!(hj.unwrap() <= ha.unwrap(), "C13.aabb.mono.axis.entry");
-        }
-    }
-
-    #[kani::proof]
-    fn c13_aabb_mono_x() {
-        axis_mono(0);
-    }
-
-    #[kani::proof]
-    fn c13_aabb_mono_y() {
-        axis_mono(1);
-    }
-
-    #[kani::proof]
-    fn c13_aabb_mono_z() {
-        axis_mono(2);
-    }
+    // (A lemma "a ray that hits a box hits every enclosing box" was attempted twice: with 18 symbolic floats, and one
+    //  axis at a time on the real AABB::intersects with the other two slabs unbounded. Neither returned from CBMC within
+    //  3000 s (float multiplications by a symbolic reciprocal). The bounded obligations C13.bvh.equiv / C13.bvh.many
+    //  check the consequence on the real tree instead; see DESIGN.md.)
 
     // ---- C10 / C11: classes of an element (wall) ---------------------------------------------------
     fn wall_with(tilt: f32, azimuth: f32) -> crate::Wall {
